@@ -15,6 +15,8 @@ M = [
  ("c10_wipe_next_number", ["C10"], "shared/src/shared.rs", "batch.delete_block_body(*number, hash, *txs)", "batch.delete_block_body(*number + 1, hash, *txs)"),
  ("c10_freeze_without_final_sync", ["C10"], "freezer/src/freezer.rs", "        guard.files.sync_all().map_err(internal_error)?;\n        Ok(ret)\n    }", "        Ok(ret)\n    }"),
  ("c10_wipe_leaves_last_tx", ["C10"], "shared/src/shared.rs", "batch.delete_block_body(*number, hash, *txs)", "batch.delete_block_body(*number, hash, txs.saturating_sub(1))"),
+ ("c03_allowed_future_16s", ["C03"], "verification/src/lib.rs", "pub const ALLOWED_FUTURE_BLOCKTIME: u64 = 15 * 1000;", "pub const ALLOWED_FUTURE_BLOCKTIME: u64 = 16 * 1000;"),
+ ("c10_max_freeze_limit", ["C10"], "shared/src/shared.rs", "const MAX_FREEZE_LIMIT: BlockNumber = 30_000;", "const MAX_FREEZE_LIMIT: BlockNumber = 3;"),
  ("c10_threshold_one_epoch_later", ["C10"], "shared/src/shared.rs", ".get_epoch_index(current_epoch + 1 - THRESHOLD_EPOCH)", ".get_epoch_index(current_epoch + 2 - THRESHOLD_EPOCH)"),
 ]
 REV = [  # reverting a fix commit (path restricted)
